@@ -17,7 +17,7 @@ From Coq Require Import ZArith List Bool.
 From Tickit Require Import Csi VT XtermDefs XtermSpec XtermProofs.
 From Tickit Require Import RectDefs WinRectSet WinDefs WinSpec WinHist
   WinExposeProofs WinLogDisjoint WinFlushProofs WinScreenInv WinPreserve WinTermResize WinHistory WinC01Extra
-  WinRectSetProofs WinScrollDesc WinScrollRegion WinScrollFold WinScrollSpec WinScrollOps WinScrollInv WinHistoryFull WinReDefs WinReProofs WinReFlags WinReEstablish WinReExample WinReForest WinScrollXterm WinScrollXtermHist WinReFlush WinReFlushProofs WinReFlushSim WinFuelMono WinFuelTotal.
+  WinRectSetProofs WinScrollDesc WinScrollRegion WinScrollFold WinScrollSpec WinScrollOps WinScrollInv WinHistoryFull WinReDefs WinReProofs WinReFlags WinReEstablish WinReExample WinReForest WinScrollXterm WinScrollXtermHist WinReFlush WinReFlushProofs WinReFlushSim WinFuelMono WinFuelTotal WinFuelScroll.
 From Tickit Require RBDefs RBSpec RBFlushDefs RBTermSim.
 From Tickit Require Import WinRBView WinEndToEnd WinEndToEndFinal.
 From Tickit Require WinInput WinInputProofs.
@@ -331,6 +331,16 @@ Theorem C01_fuel_monotone : forall cfg progs o m f',
   step cfg progs o (m_with_fuel f' m) = m_with_fuel f' (step cfg progs o m).
 Proof. exact step_wf. Qed.
 Print Assumptions C01_fuel_monotone.
+
+(* ... for ALL operations, the three scrolls included, and every defect configuration: a run that
+   faults at no step ([run_nf]; implied by run_ok3) is the same run with more fuel.  (What is still
+   missing for a total theorem over histories with scrolls is the progress half: that some fuel
+   suffices for rs_sub_vis / scroll_region / shift_damage and the scroll_one loop.) *)
+Theorem C01_run_fuel_monotone : forall cfg progs ops m f',
+  run_nf cfg progs ops m -> (r_fuel (m_root m) <= f')%nat ->
+  run cfg progs ops (m_with_fuel f' m) = m_with_fuel f' (run cfg progs ops m).
+Proof. exact run_fuel_mono_nf. Qed.
+Print Assumptions C01_run_fuel_monotone.
 
 (* ---- expose handlers that re-enter the window layer during the flush ----
    (tickit_window_expose / show / hide / raise / lower / raise_to_front / lower_to_back called
